@@ -15,7 +15,7 @@ rundemo() { # $1 = label
   res=""
   for f in $D/*_test.go; do
     pkg=$(grep -m1 '^package ' $f | awk '{print $2}')
-    case $pkg in fpgo) dir=.;; network) dir=network;; worker) dir=worker;; *) dir=.;; esac
+    case $pkg in fpgo|fpgo_test) dir=.;; network|network_test) dir=network;; worker|worker_test) dir=worker;; *) dir=.;; esac
     cp $f $WT/$dir/zz_seeded_demo_test.go
     names=$(grep -o '^func Test[A-Za-z0-9_]*' $f | sed 's/func //' | tr '\n' '|' | sed 's/|$//')
     if (cd $WT && timeout 300 go test -vet=off -count=1 -run "^($names)\$" ./$dir >/tmp/seed-demo.log 2>&1); then res="$res pass"; else res="$res FAIL"; fi
